@@ -176,6 +176,25 @@ theorem C03_failure_sticks (b : Bundle) (sb : SecBlock) :
       · exact C03_failure_sticks b sb ts (ix + 1)
       · exact C03_failure_sticks b sb ts (ix + 1)
 
+/-- **Targets without a result fail.** A BIB whose results array is shorter than its targets array
+    (a trailing MAC stripped, or all of them) never verifies: `verify_bib` indexes the results by
+    target index (`IndexError`, which the receive step records as FAILED_SEC). -/
+theorem C03_missing_result_fails (b : Bundle) (sb : SecBlock) (h : sb.results.length < sb.targets.length) :
+    verifyBib P store crcFn b sb ≠ .ok := by
+  intro hok
+  rw [C03_verify_iff] at hok
+  obtain ⟨_, hall⟩ := hok
+  obtain ⟨_, _, _, _, hr, _⟩ := hall sb.results.length h
+  simp at hr
+
+/-- **The MAC input is always the target's current BTSD.** Whatever payload a security result
+    embeds (attached form) is discarded: verification of `m` and of its detached form coincide, and
+    both use `ctx.tgt.btsd`. -/
+theorem C03_mac_input_is_target_btsd (ctx : AadCtx) (m : Msg) (d : Bytes) :
+    verifyBibTarget P store crcFn ctx (m.attach d) = verifyBibTarget P store crcFn ctx m.detach ∧
+    verifyBibTarget P store crcFn ctx m = verifyBibTarget P store crcFn ctx m.detach := by
+  cases m <;> exact ⟨rfl, rfl⟩
+
 /-- **Frame.** The MAC input is a function of the covered view, the protected header and the target
     data: contexts that agree on these (whatever else differs in the bundles) give the same input, so
     a change outside the declared scope cannot make verification fail. -/
@@ -268,6 +287,36 @@ theorem C03_apply_verifies_kw (src rcv : AadCtx) (prot kid : Bytes) (kek cek : K
 
 end
 
+/-- **A certificate key is usable only on a positive identity match.** With certificates as key
+    references, the verifier obtains a key exactly when the chain validates and the end-entity
+    certificate carries a NODE-ID equal to the security source; "no NODE-ID in the certificate"
+    (`none`) and "another NODE-ID" (`some false`) both yield no key – hence (by
+    `C03_verify_target_iff`) no COSE_Sign1 result can verify through such a certificate. -/
+theorem C03_cert_key_positive_match {Key : Type} (certs : Bytes → Option (CertInfo Key)) (ref : Bytes) (k : Key) :
+    certStore certs ref = some k ↔
+      ∃ c, certs ref = some c ∧ c.chainValid = true ∧ c.nodeIdMatch = some true ∧ c.key = k := by
+  unfold certStore
+  cases h : certs ref with
+  | none => simp
+  | some c =>
+    cases hv : c.chainValid <;> cases hm : c.nodeIdMatch with
+    | none => simp [hv, hm]
+    | some b => cases b <;> simp [hv, hm]
+
+theorem C03_sign1_needs_matching_cert {Key : Type} (P : Prims Key) (crcFn : Nat → Bytes → Bytes)
+    (certs : Bytes → Option (CertInfo Key)) (ctx : AadCtx) (prot : Bytes) (ref : Option Bytes)
+    (pl : Option Bytes) (sig : Bytes)
+    (h : verifyBibTarget P (certStore certs) crcFn ctx (.sign1 prot ref pl sig) = true) :
+    ∃ r c, ref = some r ∧ certs r = some c ∧ c.chainValid = true ∧ c.nodeIdMatch = some true := by
+  rw [C03_verify_target_iff] at h
+  obtain ⟨inp, k, _, hk, _⟩ := h
+  cases ref with
+  | none => simp [lookupKey] at hk
+  | some r =>
+    simp only [lookupKey] at hk
+    obtain ⟨c, hc, hv, hm, _⟩ := (C03_cert_key_positive_match certs r k).mp hk
+    exact ⟨r, c, rfl, hc, hv, hm⟩
+
 /-! ## Concrete instances (the hypotheses are satisfiable, the functions compute) -/
 
 namespace C03ex
@@ -312,6 +361,19 @@ example : verifyBib C03ex.toyP C03ex.toyStore C03ex.toyCrc C03ex.bundle (C03ex.s
     verifyBib C03ex.toyP C03ex.toyStore C03ex.toyCrc C03ex.bundle (C03ex.secBlock [9, 9, 58] true) = .failed 15 ∧
     verifyBib C03ex.toyP C03ex.toyStore C03ex.toyCrc C03ex.bundle
       { C03ex.secBlock [9, 9, 58] false with targets := [7] } = .raised := by
+  decide +kernel
+
+/-- certificates: matching NODE-ID gives the key; no NODE-ID, another NODE-ID, or a rejected chain do not -/
+example : (certStore (fun r => if r = [1] then some ⟨true, some true, (7 : Nat)⟩ else if r = [2] then some ⟨true, none, 7⟩
+      else if r = [3] then some ⟨true, some false, 7⟩ else if r = [4] then some ⟨false, some true, 7⟩ else none)) [1] = some 7 ∧
+    ∀ r ∈ [[2], [3], [4], [5]],
+      (certStore (fun r => if r = [1] then some ⟨true, some true, (7 : Nat)⟩ else if r = [2] then some ⟨true, none, 7⟩
+        else if r = [3] then some ⟨true, some false, 7⟩ else if r = [4] then some ⟨false, some true, 7⟩ else none)) r = none := by
+  decide
+
+/-- a result list stripped from a two-target BIB: `verifyBib` raises -/
+example : verifyBib C03ex.toyP C03ex.toyStore C03ex.toyCrc ⟨C03ex.prim, [C03ex.payload, { typeCode := 7, blockNum := 3 }, C03ex.bibBlk]⟩
+    { C03ex.secBlock [9, 9, 58] false with targets := [1, 3] } = .raised := by
   decide +kernel
 
 /-- the side conditions of `C03_aad_injective` / `C03_input_injective` hold for the instance -/
